@@ -37,8 +37,11 @@ def _sync(st: Store, sn: str):
         s.max_seen_uid = max([s.max_seen_uid] + s.view)
 
 
-def _resolve_alts(st: Store, sn: str, elems, uid: bool, may_use_stale_view: bool):
-    """Alternative target lists (lists of Msg) a set may denote, or 'REFUSED'."""
+def _resolve_alts(st: Store, sn: str, elems, uid: bool, may_use_stale_view: bool, may_renumber: bool = True):
+    """Alternative target lists (lists of Msg) a set may denote, or 'REFUSED'.
+    may_renumber: the command may first send the session's pending EXPUNGEs and then read the numbers in the new
+    numbering (COPY / MOVE: RFC 3501 allows EXPUNGE responses there); FETCH / STORE / SEARCH may not -- for them
+    a number means what it means in the view the session has been told about, or the command is refused."""
     s = st.session(sn)
     mb = st.mboxes.get(s.selected) if s.selected else None
     if mb is None:
@@ -54,8 +57,8 @@ def _resolve_alts(st: Store, sn: str, elems, uid: bool, may_use_stale_view: bool
         if may_use_stale_view:
             views.append(list(s.view))
     cur = [u for u in s.view if u in mb.uids()] + [u for u in mb.uids() if u not in s.view]
-    if in_sync or may_use_stale_view:
-        views.append(cur if in_sync else cur)
+    if in_sync or (may_use_stale_view and may_renumber):
+        views.append(cur)
     for v in views:
         try:
             pos = S.denote_seq(elems, len(v))
@@ -143,7 +146,7 @@ def apply_step(st: Store, sn: str, i: int, ev: dict, stp: str, res: dict, ctx: d
                 yield out(st2, ("OK", hits))
             return
         elems = _parse_set(ev["set"]) if "set_resolved" not in ev else _parse_set(ev["set_resolved"])
-        for alt in _resolve_alts(st, sn, elems, uid, True):
+        for alt in _resolve_alts(st, sn, elems, uid, True, may_renumber=False):
             st2 = st.clone()
             if alt == "REFUSED":
                 yield out(st2, ("REFUSED",))
